@@ -26,6 +26,7 @@ type Prog struct {
 	typeIDs map[string]int
 	globals map[*ssa.Global]int
 	embed   map[string]bool // type strings of struct types that occur by value inside other types
+	holders map[string]map[string]types.Type // type string -> types that hold it by value (direct)
 
 	contracts map[string]*Contract // by function key
 	specFuncs map[string]*SpecFunc
@@ -65,7 +66,7 @@ func loadProg(repoDir string, patterns []string) (*Prog, error) {
 	p := &Prog{
 		fset: pkgs[0].Fset, pkgs: pkgs, ssa: sp, lay: newLayouter(),
 		byPath:  map[string]*packages.Package{},
-		typeIDs: map[string]int{}, globals: map[*ssa.Global]int{}, embed: map[string]bool{},
+		typeIDs: map[string]int{}, globals: map[*ssa.Global]int{}, embed: map[string]bool{}, holders: map[string]map[string]types.Type{},
 		contracts: map[string]*Contract{}, specFuncs: map[string]*SpecFunc{},
 		counts: map[string][]string{}, countOf: map[string][]string{},
 		repoDir: repoDir,
@@ -88,48 +89,90 @@ func (p *Prog) scanEmbed(pk *types.Package) {
 		if !ok {
 			continue
 		}
-		p.scanType(tn.Type().Underlying(), 0)
+		p.scanType(tn.Type(), tn.Type().Underlying(), 0)
 	}
 }
 
-func (p *Prog) scanType(t types.Type, depth int) {
+func (p *Prog) scanType(holder types.Type, t types.Type, depth int) {
 	if depth > 6 {
 		return
 	}
-	mark := func(e types.Type) {
+	mark := func(h types.Type, e types.Type) {
 		e = types.Unalias(e)
-		if _, ok := e.Underlying().(*types.Struct); ok {
-			p.embed[types.TypeString(e, nil)] = true
-		}
-		if _, ok := e.Underlying().(*types.Array); ok {
-			p.embed[types.TypeString(e, nil)] = true
+		_, isSt := e.Underlying().(*types.Struct)
+		_, isArr := e.Underlying().(*types.Array)
+		if isSt || isArr {
+			k := types.TypeString(e, nil)
+			p.embed[k] = true
+			if p.holders[k] == nil {
+				p.holders[k] = map[string]types.Type{}
+			}
+			if h != nil {
+				p.holders[k][types.TypeString(h, nil)] = h
+			}
 		}
 	}
 	switch u := t.(type) {
 	case *types.Struct:
 		for i := 0; i < u.NumFields(); i++ {
 			ft := u.Field(i).Type()
-			mark(ft)
+			mark(holder, ft)
 			if _, named := types.Unalias(ft).(*types.Named); !named {
-				p.scanType(ft.Underlying(), depth+1)
+				p.scanType(holder, ft.Underlying(), depth+1)
 			}
 		}
 	case *types.Array:
-		mark(u.Elem())
-		p.scanType(u.Elem().Underlying(), depth+1)
+		mark(holder, u.Elem())
+		p.scanType(holder, u.Elem().Underlying(), depth+1)
 	case *types.Slice:
-		mark(u.Elem())
+		// elements live in a backing array whose dynamic type is the slice type
+		mark(u, u.Elem())
 		if _, named := types.Unalias(u.Elem()).(*types.Named); !named {
-			p.scanType(u.Elem().Underlying(), depth+1)
+			p.scanType(u, u.Elem().Underlying(), depth+1)
 		}
 	case *types.Map:
-		mark(u.Elem())
-		mark(u.Key())
+		mark(nil, u.Elem())
+		mark(nil, u.Key())
 	case *types.Pointer:
 		if _, named := types.Unalias(u.Elem()).(*types.Named); !named {
-			p.scanType(u.Elem().Underlying(), depth+1)
+			p.scanType(u.Elem(), u.Elem().Underlying(), depth+1)
 		}
 	}
+}
+
+// holderTypes: every type whose objects may contain a T by value (T itself,
+// direct and transitive holders); nil when unknown or too many.
+func (p *Prog) holderTypes(t types.Type) []types.Type {
+	t = types.Unalias(t)
+	seen := map[string]types.Type{types.TypeString(t, nil): t}
+	work := []string{types.TypeString(t, nil)}
+	for len(work) > 0 {
+		k := work[len(work)-1]
+		work = work[:len(work)-1]
+		hs, ok := p.holders[k]
+		if !ok && k != types.TypeString(t, nil) {
+			continue
+		}
+		for hk, h := range hs {
+			if _, dup := seen[hk]; !dup {
+				seen[hk] = h
+				work = append(work, hk)
+			}
+		}
+		if len(seen) > 12 {
+			return nil
+		}
+	}
+	var out []types.Type
+	var ks []string
+	for k := range seen {
+		ks = append(ks, k)
+	}
+	sort.Strings(ks)
+	for _, k := range ks {
+		out = append(out, seen[k])
+	}
+	return out
 }
 
 // rootOnly reports whether a non-nil *T always points at offset 0 of an object
